@@ -228,8 +228,12 @@ def correspondence(ctx):
                 with G.debug_logging(log):
                     t = G.pipe_trace(al, e, data, sizes, fl, it, name_kind=nk, u=uu)
                 impl = G.render_trace(t)
+                if t.get('close_escaped') is not None:
+                    impl += '\tclose-raised:' + type(t['close_escaped']).__name__
             except G.CallFormError as ex:
                 t, impl = {'errored': ()}, 'CALL-FORM-REJECTED: %s' % ex
+            except Exception as ex:
+                t, impl = {'errored': ()}, 'ESCAPED:%s' % type(ex).__name__
             info = {'end': impl.split('end=')[1].split('\t')[0] if 'end=' in impl else 'rejected', 'errored': t['errored']}
             for f in fl:
                 if len(f) < 3:
@@ -267,6 +271,10 @@ def oracle(allowed, expected, data, sizes, faults, iterator, must_complete=False
             t = G.pipe_trace(allowed, expected, data, sizes, faults, iterator, name_kind=names, u=u)
     except G.CallFormError as ex:
         return str(ex)
+    except Exception as ex:       # nothing the implementation does may take the harness down: it is judged instead
+        return '%s escaped while the wrapper was being constructed or driven' % type(ex).__name__
+    if t.get('close_escaped') is not None:
+        return 'close() let %s escape' % type(t['close_escaped']).__name__
     if set(t['names']) - (set(allowed) if allowed else set(G.ALLF)):
         return 'inspectors outside allowed_formats are being fed: %s' % sorted(set(t['names']) - set(allowed or G.ALLF))
     chunks, out, (end, exc), ev = t['chunks'], t['out'], t['end'], t['events']
